@@ -141,7 +141,7 @@ def enumerate_cases(tier):
 
 
 def budget(tier):
-    return 3000 if tier == "quick" else 40000
+    return 3000 if tier == "quick" else 400000
 
 
 def _depth(t):
